@@ -162,11 +162,13 @@ func vxH_C05_crashImage() {
 	_ = vl
 	var layers [][]vxEnt
 	var doneAt []int // log length when round r had completed
+	lastConcern := CompactionDisable
 	for r := 0; r < 2; r++ {
 		ents := mk()
 		po := StorePersistOptions{NoSync: noSync}
 		if r == 1 {
 			po.CompactionConcern = CompactionConcern(vxChoose(3))
+			lastConcern = po.CompactionConcern
 		}
 		s, perr := store.Persist(vxHigher(opts, ents), po)
 		vxAssert("persist-ok", perr == nil)
@@ -174,6 +176,22 @@ func vxH_C05_crashImage() {
 		vxQuiesce()
 		layers = append(layers, ents)
 		doneAt = append(doneAt, len(fs.log))
+	}
+	// optionally revert to the previous round: a completed SnapshotRevert
+	// is durable
+	reverted := false
+	revertDoneAt := 0
+	if lastConcern == CompactionDisable && vxChoose(2) == 1 {
+		cur, _ := store.Snapshot()
+		prev, perr := store.SnapshotPrevious(cur)
+		vxAssert("previous-ok", perr == nil && prev != nil)
+		if prev != nil {
+			vxAssert("revert-ok", store.SnapshotRevert(prev) == nil)
+			prev.Close()
+			reverted = true
+			revertDoneAt = len(fs.log)
+		}
+		cur.Close()
 	}
 	store.Close()
 	vxQuiesce()
@@ -203,8 +221,10 @@ func vxH_C05_crashImage() {
 	if !noSync {
 		// operation n-1 was in progress at the crash; everything before it
 		// had returned
-		if n > doneAt[1] {
-			vxAssert("completed-synced-round-2-survives", is2)
+		if reverted && n > revertDoneAt {
+			vxAssert("completed-revert-is-durable", is1)
+		} else if n > doneAt[1] {
+			vxAssert("completed-synced-round-2-survives", vxOr(is2, vxAnd(reverted, is1)))
 		} else if n > doneAt[0] {
 			vxAssert("completed-synced-round-1-survives", vxOr(is1, is2))
 		}
